@@ -2,6 +2,7 @@ package props
 
 import (
 	"bytes"
+	"crypto/sha256"
 	"encoding/base64"
 	"encoding/hex"
 	"encoding/json"
@@ -221,6 +222,73 @@ func c04Run(t *testing.T, st *vstat.Stats, p c04Plan) (v *viol) {
 						if res, err := w.Machines[0].ProcessOp(g); err == nil {
 							add("error result of machine 0", res)
 							errorResults++
+						}
+					}
+					if i == 0 && string(op.Type) == "state_dkg_responses_await_confirmations" {
+						// error results of the deals step: on a twin of machine 0 (a copy of its database, log replayed) the
+						// operation is fed with one deal replaced by (a) a genuine deal that was addressed to somebody else,
+						// (b) a deal with flipped bits, (c) random bytes of the same length; whatever the machine says about
+						// a deal it cannot open goes to the board and must not contain any of its secrets either
+						var g types.Operation
+						var entries []map[string]any
+						if json.Unmarshal(file, &g) == nil && json.Unmarshal(g.Payload, &entries) == nil && len(entries) > 0 {
+							var foreign []byte
+							for _, bm := range w.Board.All() {
+								if bm.DkgRoundID != round || bm.Event != "event_dkg_deal_confirm_received" || bm.RecipientAddr == w.Names[0] {
+									continue
+								}
+								var dr requests.DKGProposalDealConfirmationRequest
+								if json.Unmarshal(bm.Data, &dr) == nil && len(dr.Deal) > 0 {
+									foreign = dr.Deal
+								}
+							}
+							victim := -1 // an entry of another dealer (the machine's own entry is a placeholder it skips)
+							for k, e := range entries {
+								if fmt.Sprint(e["Username"]) != w.Names[0] {
+									victim = k
+									break
+								}
+							}
+							if victim < 0 {
+								victim = 0
+							}
+							genuineDeal, _ := base64.StdEncoding.DecodeString(fmt.Sprint(entries[victim]["DkgDeal"]))
+							variants := map[string][]byte{"misrouted": foreign}
+							if len(genuineDeal) > 8 {
+								fl := append([]byte{}, genuineDeal...)
+								fl[len(fl)/2] ^= 0x55
+								variants["bit-flipped"] = fl
+								rnd := sha256.Sum256(genuineDeal)
+								variants["random"] = bytes.Repeat(rnd[:], len(genuineDeal)/32+1)[:len(genuineDeal)]
+							}
+							for name, deal := range variants {
+								if len(deal) == 0 {
+									continue
+								}
+								twinDir := filepath.Join(root, "twin-"+name)
+								if err := copyDir(w.Machines[0].Dir, twinDir); err != nil {
+									continue
+								}
+								_ = os.Remove(filepath.Join(twinDir, "LOCK"))
+								tm, err := world.OpenMachine(twinDir, filepath.Join(root, "twin-results-"+name), w.Machines[0].Mnemonic, w.Machines[0].Password, false)
+								if err != nil {
+									v = violf("harness", "twin of machine 0: %v", err)
+									return
+								}
+								_ = tm.M.ReplayOperationsLog(round)
+								entries[victim]["DkgDeal"] = deal
+								g2 := g
+								g2.ID = fmt.Sprintf("%032x", 11)
+								g2.Payload, _ = json.Marshal(entries)
+								if res, err := tm.ProcessOp(g2); err == nil {
+									if os.Getenv("VERIF_DEBUG") != "" {
+										fmt.Fprintf(os.Stderr, "TWIN %s: %s\n", name, clip(string(res), 900))
+									}
+									add("error result of a twin of machine 0 for a "+name+" deal", res)
+									errorResults++
+								}
+								tm.Close()
+							}
 						}
 					}
 					if i == 0 {
